@@ -137,6 +137,13 @@ theorem poolNest_length (posH posW : List ℕ) (c ph pw : ℕ) :
   intro _
   simp
 
+theorem mergeNaryNest_length (n : ℕ) (shape : List ℕ) :
+    (mergeNaryNest n shape).length = (n - 1) * (mergeNest shape).length := by
+  unfold mergeNaryNest
+  rw [length_flatMap_const _ _ (mergeNest shape).length, List.length_range]
+  intro _
+  simp
+
 theorem denseNestAt_length (npos nIn units : ℕ) :
     (denseNestAt npos nIn units).length = npos * (units * nIn) := by
   unfold denseNestAt
